@@ -125,6 +125,18 @@ type Case struct {
 	PreAlloc int    `json:"pre_alloc,omitempty"` // target references allocated before copying starts
 	Calls    []Call `json:"calls"`
 
+	// WriteMode says when the copies reach the target file:
+	//   ""      immediately (CopyReference Puts, the harness Puts each Copy result at once)
+	//   "open"  the harness has a stream of its own open in the target during
+	//           all calls, so that Writer.Put queues every object until that
+	//           stream is closed
+	//   "late"  the results of Copy are collected and Put after the last call
+	// Pack is the number of leading nodes which are streams copied on purpose
+	// (sizes drawn from a small set, so that later ones are smaller than, equal
+	// to and larger than earlier ones).
+	WriteMode string `json:"write_mode,omitempty"`
+	Pack      int    `json:"pack,omitempty"`
+
 	obs *observed
 }
 
@@ -637,6 +649,10 @@ func (c *Case) patchCryptRefs(data []byte) error {
 	return nil
 }
 
+// ownData is what the harness writes to its own target stream in write
+// mode "open".
+var ownData = bytes.Repeat([]byte("the caller's own stream, open while copying\n"), 40)
+
 // harnessError marks a failure of the scaffolding (source could not be
 // produced or does not read back as modelled) as opposed to a failure of the
 // Copier.
@@ -800,10 +816,37 @@ func runCase(c *Case) error {
 			}
 		}
 	}
-	put := func(obj pdf.Object) (pdf.Reference, error) {
+	type pendingPut struct {
+		h   pdf.Reference
+		obj pdf.Object
+	}
+	var late []pendingPut
+	putNow := func(obj pdf.Object) (pdf.Reference, error) {
 		h := w.Alloc()
 		harness[h] = true
 		return h, w.Put(h, obj)
+	}
+	put := func(obj pdf.Object) (pdf.Reference, error) {
+		if c.WriteMode != "late" {
+			return putNow(obj)
+		}
+		h := w.Alloc()
+		harness[h] = true
+		late = append(late, pendingPut{h, obj})
+		return h, nil
+	}
+	var ownRef pdf.Reference
+	var ownW io.WriteCloser
+	if c.WriteMode == "open" {
+		ownRef = w.Alloc()
+		harness[ownRef] = true
+		ownW, err = w.OpenStream(ownRef, pdf.Dict{"Own": pdf.Integer(1)})
+		if err != nil {
+			return &harnessError{err}
+		}
+		if _, err := ownW.Write(ownData[:len(ownData)/2]); err != nil {
+			return &harnessError{err}
+		}
 	}
 
 	calls := 0
@@ -848,7 +891,7 @@ func runCase(c *Case) error {
 			if call.To >= 0 && call.To < i && c.Calls[call.To].Op == "copyref" {
 				to = results[call.To].ref
 			} else {
-				to, err = put(pdf.Dict{"Redirected": pdf.Integer(i)})
+				to, err = putNow(pdf.Dict{"Redirected": pdf.Integer(i)})
 				if err != nil {
 					return &harnessError{err}
 				}
@@ -857,6 +900,20 @@ func runCase(c *Case) error {
 			results[i].ref = to
 		default:
 			return &harnessError{fmt.Errorf("unknown call %q", call.Op)}
+		}
+	}
+	if ownW != nil {
+		if _, err := ownW.Write(ownData[len(ownData)/2:]); err != nil {
+			return fmt.Errorf("writing to the caller's own target stream after copying failed: %v", err)
+		}
+		// closing the stream writes the objects queued meanwhile
+		if err := ownW.Close(); err != nil {
+			return fmt.Errorf("closing the caller's own target stream (which writes the queued copies) failed: %v", err)
+		}
+	}
+	for _, p := range late {
+		if err := w.Put(p.h, p.obj); err != nil {
+			return fmt.Errorf("the Writer rejected an object returned by Copy earlier (%s): %v", vt.Show(p.obj), err)
 		}
 	}
 	if err := w.Close(); err != nil {
@@ -952,10 +1009,40 @@ func runCase(c *Case) error {
 			}
 		}
 	}
+	if ownW != nil {
+		got, err := tgt.Get(ownRef, true)
+		stm, ok := got.(*pdf.Stream)
+		if err != nil || !ok {
+			return fmt.Errorf("the caller's own target stream reads back as %s, %v", vt.Show(got), err)
+		}
+		body, err := decodeAll(tgt, stm)
+		if err != nil || !bytes.Equal(body, ownData) {
+			return fmt.Errorf("the caller's own target stream, open while copying, reads back with %d bytes instead of %d (%v)", len(body), len(ownData), err)
+		}
+		o.streams = append(o.streams, stm.Length())
+	}
 	if err := o.account(); err != nil {
 		return err
 	}
 	o.classify()
+	if mode := c.WriteMode; mode != "" {
+		name := map[string]string{"open": "while-stream-open", "late": "copy-then-put"}[mode]
+		o.cls["write-mode/"+name] = true
+		if o.delayedStreams >= 2 {
+			o.cls["write-mode/"+name+"/>=2-streams"] = true
+			if cipherOf(c.Src) != "none" {
+				o.cls["write-mode/"+name+"/encrypted-source"] = true
+				o.cls["write-mode/"+name+"/source:"+cipherOf(c.Src)] = true
+			} else {
+				o.cls["write-mode/"+name+"/unencrypted-source"] = true
+			}
+			for k := range o.sizeRel {
+				o.cls["write-mode/"+name+"/later-stream-"+k] = true
+			}
+		}
+	} else {
+		o.cls["write-mode/immediate"] = true
+	}
 	c.obs.reached = len(o.learnt)
 	return nil
 }
